@@ -10,6 +10,7 @@ import NutsProofs.Lemmas.C10
 import NutsProofs.Lemmas.C10Obs
 import NutsProofs.Lemmas.C10Shelves
 import NutsProofs.Lemmas.C10Backend
+import NutsProofs.Lemmas.C10Docs
 
 namespace Nuts.C10.Props
 open Nuts.C10
@@ -714,6 +715,143 @@ example : (match sAddAll cfg0 {} [evB, evA, evCreate, evA] with
     | .ok st => st.events.map (·.metaRef) == [some 0, some 1, some 2] && st.events.map (·.ev.ref) == [100, 150, 200] &&
         st.latest == some 2 && st.conflicted && st.metas.length == 3 &&
         (match sResolve st (some { time := some 15 }) with | .ok (_, m) => m.version == 0 | _ => false)
+    | _ => false) = true := by decide
+
+/-! ### the content-addressed shelves txRefV2 / documentsV2 and the statistics shelf (NutsModel/C10/DocShelves.lean) -/
+
+theorem render_nonempty (d : Doc) : d.render.isEmpty = false := by
+  have hne : d.render.toList ≠ [] := by
+    unfold Doc.render
+    simp [String.toList_append]
+  cases h : d.render.isEmpty with
+  | false => rfl
+  | true =>
+    exfalso
+    apply hne
+    rw [String.isEmpty_iff.mp h]; rfl
+
+/-- **Every document the store refers to is on the document shelf, under its own hash, after ANY sequence of Adds** —
+    including Adds whose first write transaction failed (mode 1: nothing written) or whose second one failed or was rolled
+    back (mode 2: `writeDocument`'s two Puts stay behind), in any arrival order, for any number of DIDs sharing the two
+    shelves. For the reached state `(b, s)`:
+    * documentsV2 is content addressed: a value is only ever stored under the hash of its own bytes;
+    * txRefV2 maps a ref only to the payload hash of the accepted transaction with that ref;
+    * for every listed event, `applyDocument`'s lookup (txRefV2 Get, then `readDocument`) yields the published bytes — the
+      "transaction reference not found" / "read document failed" errors of `applyDocument` are unreachable;
+    * for every stored version (published or merged), `readDocument(metadata.Hash)` yields that version's bytes — so the
+      document reads of `Resolve`, `Iterate`, `loadConflictedDocuments` and `applyFrom`'s base never fail. -/
+theorem referenced_documents_are_stored (cfg : Cfg) (U : List Event) (hU : Accepted U) (l : List (Event × Nat))
+    (hl : ∀ p ∈ l, p.1 ∈ U) (b : Blob) (s : Store) (h : dAddAll cfg ({}, {}) l = .ok (b, s)) :
+    (∀ k bytes, alGet b.docs k = some bytes → k = "H:" ++ bytes) ∧
+    (∀ r k, alGet b.txRef r = some k → ∃ e ∈ U, e.ref = r ∧ e.payloadHash = k) ∧
+    (∀ id, ∀ e ∈ (s.get id).events, lookupTx b e.ref = .ok e.doc.render) ∧
+    (∀ id, ∀ p ∈ (s.get id).chain, readDocument b p.2.hash = .ok p.1.render) := by
+  have hd := dAddAll_dinv cfg U hU l ({}, {}) (b, s) hl (dinv_empty cfg U) h
+  refine ⟨hd.ca, hd.tx, ?_, ?_⟩
+  · intro id e he
+    obtain ⟨a, c⟩ := hd.ev id e he
+    simp only [lookupTx, a, readDocument, c, render_nonempty]
+    rfl
+  · intro id p hp
+    simp only [readDocument, hd.ch id p hp, render_nonempty]
+    rfl
+
+/-- **Resolve hands out the bytes of the version it selected**: whenever the chain-level `Resolve` answers version
+    `(d, m)`, the document read through documentsV2 succeeds and returns exactly `d`'s bytes (so order independence of
+    `resolve` carries over to the bytes handed out). -/
+theorem resolve_reads_the_selected_version (cfg : Cfg) (U : List Event) (hU : Accepted U) (l : List (Event × Nat))
+    (hl : ∀ p ∈ l, p.1 ∈ U) (b : Blob) (s : Store) (h : dAddAll cfg ({}, {}) l = .ok (b, s))
+    (id : String) (rm : Option ResolveMeta) (d : Doc) (m : Meta) (hr : resolve s id rm = .ok (d, m)) :
+    resolveBytes b s id rm = .ok (d.render, m) := by
+  obtain ⟨_, _, _, hch⟩ := referenced_documents_are_stored cfg U hU l hl b s h
+  have hmem : (d, m) ∈ (s.get id).chain := by
+    unfold resolve at hr
+    obtain ⟨newer, older, hc, _, _⟩ := resolveChain_sound rm _ (d, m) hr
+    have : (d, m) ∈ (s.get id).chain.reverse := by rw [hc]; simp
+    exact List.mem_reverse.mp this
+  simp only [resolveBytes, hr, hch id (d, m) hmem]
+
+/-- the model's shelves after the second write transaction of a NON-failing Add of a fresh store are those of the
+    chain-level model (the projection forgets the two shelves) -/
+theorem doc_shelves_do_not_change_the_store (cfg : Cfg) (b : Blob) (s : Store) (e : Event) (b' : Blob) (s' : Store)
+    (h : dAdd cfg b s e 0 = .ok (b', s')) : add cfg s e = .ok s' := by
+  unfold dAdd at h
+  simp only [Nat.zero_ne_one, if_false, show (0 : Nat) ≠ 2 by decide] at h
+  cases hA : add cfg s e with
+  | err x => simp only [hA] at h; cases h
+  | panic x => simp only [hA] at h; cases h
+  | ok s1 =>
+    simp only [hA] at h
+    split at h <;> (simp only [Res.ok.injEq, Prod.mk.injEq] at h; rw [h.2])
+
+/-- **a failed Add changes nothing but the content-addressed shelves** ("unchanged on fault") -/
+theorem failed_add_leaves_the_store_unchanged (cfg : Cfg) (b : Blob) (s : Store) (e : Event) (mode : Nat)
+    (hm : mode = 1 ∨ mode = 2) (b' : Blob) (s' : Store) (h : dAdd cfg b s e mode = .ok (b', s')) :
+    s' = s ∧ (mode = 1 → b' = b) ∧ (mode = 2 → b' = writeDocument b e) := by
+  unfold dAdd at h
+  rcases hm with rfl | rfl
+  · simp only [if_true, Res.ok.injEq, Prod.mk.injEq] at h
+    exact ⟨h.2.symm, fun _ => h.1.symm, fun h2 => by cases h2⟩
+  · simp only [show (2 : Nat) ≠ 1 by decide, if_false, if_true, Res.ok.injEq, Prod.mk.injEq] at h
+    exact ⟨h.2.symm, (fun h1 => by cases h1), fun _ => h.1.symm⟩
+
+/-- **statsV2 codec**: what `PutUint32` writes, `Uint32` reads back (for every value a uint32 can hold); a written
+    counter never makes `binary.BigEndian.Uint32` panic -/
+theorem stats_codec_roundtrip (n : Nat) (h : n < 4294967296) : decU32 (some (encU32 n)) = .ok n := dec_enc_u32 n h
+
+/-- **the statistics part of `applyFrom` on the literal 4-byte values refines the counters of `add`**: as long as the
+    decoded counters stay below 2³² and the count is positive when a DID that was flagged stops being conflicted (both hold
+    in every reachable state: `stats_are_what_the_states_imply`), the uint32 arithmetic never wraps and the bytes written
+    decode to exactly the numbers the chain-level model keeps -/
+theorem stats_shelf_refines_counters (st : Stats) (c d : Nat) (was now : Bool) (lv : Nat)
+    (hc : decU32 st.cc = .ok c) (hd : decU32 st.dc = .ok d) (hcb : c + 1 < 4294967296) (hdb : d + 1 < 4294967296)
+    (hpos : was = true → now = false → 1 ≤ c) :
+    ∃ st', statsStep st was now lv = .ok st' ∧
+      decU32 st'.cc = .ok (if now then (if was then c else c + 1) else (if was then c - 1 else c)) ∧
+      decU32 st'.dc = .ok (if lv = 0 then d + 1 else d) := by
+  have e1 : u32 ((c : Int) + 1) = c + 1 := by unfold u32; omega
+  have e3 : u32 ((d : Int) + 1) = d + 1 := by unfold u32; omega
+  generalize hc' : (if now then (if was then c else u32 (c + 1)) else (if was then u32 ((c : Int) - 1) else c)) = c'
+  have hc'v : c' = (if now then (if was then c else c + 1) else (if was then c - 1 else c)) := by
+    rw [← hc']
+    cases was <;> cases now <;> simp only [if_true, if_false, Bool.false_eq_true, e1]
+    exact u32_pred c (hpos rfl rfl) (by omega)
+  have hc'lt : c' < 4294967296 := by
+    rw [hc'v]; cases was <;> cases now <;> simp only [if_true, if_false, Bool.false_eq_true] <;> omega
+  unfold statsStep
+  simp only [hc, hc']
+  by_cases hlv : lv = 0
+  · simp only [hlv, if_true, hd, e3]
+    exact ⟨_, rfl, by rw [← hc'v]; exact dec_enc_u32 _ hc'lt, dec_enc_u32 _ (by omega)⟩
+  · simp only [hlv, if_false]
+    exact ⟨_, rfl, by rw [← hc'v]; exact dec_enc_u32 _ hc'lt, hd⟩
+
+/-! non-vacuity: an accepted fork {create, A, B}; B's second write transaction fails once, B is delivered again; the
+    published and the merged documents are readable, the index knows the three refs -/
+private def evC' : Event := { evCreate with payloadHash := "H:" ++ (docOf "s0").render }
+private def evA' : Event := { evA with payloadHash := "H:" ++ (docOf "sA").render }
+private def evB' : Event := { evB with payloadHash := "H:" ++ (docOf "sB").render }
+
+example : Accepted [evC', evA', evB'] := by
+  refine ⟨?_, ?_⟩
+  · intro e he
+    simp only [List.mem_cons, List.mem_nil_iff, or_false] at he
+    rcases he with rfl | rfl | rfl <;> rfl
+  · intro a ha b hb h
+    simp only [List.mem_cons, List.mem_nil_iff, or_false] at ha hb
+    rcases ha with rfl | rfl | rfl <;> rcases hb with rfl | rfl | rfl <;> first | rfl | (simp [evC', evA', evB', evCreate, evA, evB] at h)
+
+set_option maxRecDepth 200000 in
+example : (match dAddAll cfg0 ({}, {}) [(evB', 2), (evA', 0), (evC', 0), (evB', 1), (evB', 0)] with
+    | .ok (b, s) =>
+      b.txRef.length == 3 && b.docs.length == 4 && (s.get "did:nuts:x").conflicted &&
+      (match resolveBytes b s "did:nuts:x" (some {}) with | .ok (bytes, m) => m.sourceTx.length == 2 && !bytes.isEmpty | _ => false) &&
+      (match lookupTx b 150 with | .ok bytes => bytes == (docOf "sB").render | _ => false)
+    | _ => false) = true := by decide
+
+example : (match statsStep {} false true 0 with
+    | .ok st => st.cc == some [0, 0, 0, 1] && st.dc == some [0, 0, 0, 1] &&
+        (match statsStep st true false 3 with | .ok st2 => st2.cc == some [0, 0, 0, 0] && st2.dc == some [0, 0, 0, 1] | _ => false)
     | _ => false) = true := by decide
 
 end Nuts.C10.Props
